@@ -21,10 +21,11 @@ func (l *Log) Add(format string, a ...interface{}) {
 func (l *Log) String() string { return strings.Join(l.Calls, ";") }
 
 type Obj struct {
-	N    int
-	Name string
-	Next *Obj
-	L    *Log
+	N      int
+	Name   string
+	Next   *Obj
+	L      *Log
+	hidden int // unexported: not readable, but "hidden" in O is still true at run time (reflect finds the field)
 }
 
 func (o *Obj) Get() int       { o.L.Add("Get@%d", o.N); return o.N }
@@ -53,6 +54,7 @@ func (o *Obj) Pick(a, b interface{}) interface{} {
 	return b
 }
 
+// (Obj has an unexported field too: membership by name sees it at run time.)
 type MyInt int
 type MyStr string
 
